@@ -142,4 +142,96 @@ def PB.direct : PB → List (Nat × List Nat)
 /-- every stage of the dispatcher can rendezvous on the dispatcher's pool -/
 def Disp.completes (d : Disp) : Bool := d.widths.all (poolCompletes d.pool)
 
+/-!
+## The async dispatcher over a *sequence* of calls (`async_dispatcher.rs`)
+
+`AsyncDispatcher` keeps `data: Data<R>`, which is either `Data::Inner` (the stages and the world are
+here) or `Data::Rx(rx)` (a job spawned on the pool owns them and will `snd.send(inner)` as its last
+statement). The only blocking operation of the type is `Data::inner`: `rx.recv()` — and every call
+of it is made **on the thread that calls the `AsyncDispatcher` method**:
+
+* `dispatch` = `let (snd, inner) = self.data.sender(); pool.spawn(move || { for stage in
+  &mut inner.stages { stage.execute(world) }; snd.send(inner) })`, and `Data::sender` starts with
+  `self.inner()`: if a previous dispatch is in flight the **caller** waits for it, and only then a
+  fresh channel is stored and the new job spawned. The spawned closure owns `inner` from the start;
+  it contains no `recv`.
+* `wait`, `wait_without_tl`, `world` / `world_mut` / `res` / `mut_res` / `setup`: `self.data.inner()`.
+* `running`: `inner_noblock` = `try_recv` — takes the systems back if the job has already sent them,
+  never blocks.
+
+The worker that runs the spawned closure calls `stage.execute` itself, i.e. it takes part in the
+stage's groups: a job does not cost its own stages a worker. What would cost them a worker is
+*another* unfinished job of the same dispatcher on the same pool: the one that is executing stages
+uses workers, and one that is not executing stages could only be blocked. The model therefore
+counts, for every dispatch, the largest number of other unfinished jobs that existed while it was
+unfinished (`others`); `C11_async_whole_pool` shows that it is `0` for every dispatch of every call
+sequence, whatever `running` observes.
+-/
+
+/-- the calls on an `AsyncDispatcher` that touch `data` (`world` stands for everything that is just
+`self.data.inner()`; `running sent`: `sent` = the job had already executed `snd.send(inner)`) -/
+inductive ACall where
+  | dispatch
+  | wait
+  | waitWithoutTl
+  | world
+  | running (sent : Bool)
+deriving Repr, DecidableEq
+
+structure ASt where
+  /-- `self.data` is `Data::Rx(_)` -/
+  rx : Bool
+  /-- jobs spawned on the pool that have not been taken back (`snd.send(inner)` not yet received) -/
+  flying : Nat
+  /-- per `dispatch()` so far, **newest first**: the largest number of other unfinished jobs of this
+  dispatcher while its own job was unfinished -/
+  others : List Nat
+deriving Repr, DecidableEq
+
+def ASt.init : ASt := ⟨false, 0, []⟩
+
+/-- `Data::inner`, executed by the calling thread: `rx.recv()` returns when the job in flight has
+sent the systems back (its last statement), `Data::Inner` returns at once -/
+def ASt.inner (s : ASt) : ASt :=
+  if s.rx then { s with rx := false, flying := s.flying - 1 } else s
+
+/-- the `k` unfinished jobs are those of the `k` most recent dispatches: each of them now has `k`
+others next to it (itself replaced by the new one in the count) -/
+def bumpNewest (k : Nat) (l : List Nat) : List Nat :=
+  (l.take k).map (fun b => max b k) ++ l.drop k
+
+/-- `replace(self, Data::Rx(rx))` and `pool.spawn(job)` -/
+def ASt.spawn (s : ASt) : ASt :=
+  { rx := true, flying := s.flying + 1, others := s.flying :: bumpNewest s.flying s.others }
+
+def ASt.call (s : ASt) : ACall → ASt
+  | .dispatch => s.inner.spawn
+  | .wait => s.inner
+  | .waitWithoutTl => s.inner
+  | .world => s.inner
+  | .running sent => if sent then s.inner else s
+
+def ASt.run (s : ASt) : List ACall → ASt
+  | [] => s
+  | c :: cs => (s.call c).run cs
+
+def nDispatch : List ACall → Nat
+  | [] => 0
+  | .dispatch :: cs => nDispatch cs + 1
+  | _ :: cs => nDispatch cs
+
+/-- per dispatch of the call sequence, oldest first: how many workers of the pool other jobs of the
+dispatcher hold while this dispatch's stages run -/
+def asyncOthers (calls : List ACall) : List Nat := (ASt.init.run calls).others.reverse
+
+/-- per dispatch, oldest first: can a stage of `n` groups rendezvous on a pool of `p` threads -/
+def asyncVerdicts (p n : Nat) (calls : List ACall) : List Bool :=
+  (asyncOthers calls).map fun b => poolCompletesBusy p b n
+
+/-- per dispatch of the call sequence, per stage of the dispatcher: the verdict. The queued jobs of
+an async dispatcher would sit on the pool of the top-level slot, which the batches of depth 1 share;
+no distinction is made for deeper batches (default pool) because `others` is `0` throughout. -/
+def Disp.completesAsync (calls : List ACall) (d : Disp) : List (List Bool) :=
+  (asyncOthers calls).map fun b => d.widths.map (poolCompletesBusy d.pool b)
+
 end Shred
